@@ -1420,19 +1420,10 @@ impl<'a, E: quiver_core::effects::Effect> Compiler<'a, E> {
         function: ast::Function,
         expected_parameter: Option<usize>,
     ) -> Result<usize, Error> {
-        let mut function_params: HashSet<String> = HashSet::new();
-
-        if let Some(ast::Type::Tuple(tuple_type)) = &function.parameter_type {
-            for field in &tuple_type.fields {
-                if let ast::FieldType::Field {
-                    name: Some(field_name),
-                    ..
-                } = field
-                {
-                    function_params.insert(field_name.clone());
-                }
-            }
-        }
+        // The labels of the parameter's tuple type are NOT variables in the body (the parameter is
+        // only reachable through `$`), so they must not hide an outer variable of the same name
+        // from the capture analysis: `x = 1, f = #[x: 'int] { x }` reads the outer `x`.
+        let function_params: HashSet<String> = HashSet::new();
 
         let unique_captures = variables::collect_free_variables(
             function.body.as_ref(),
